@@ -43,6 +43,7 @@ enum
     MOP_ALIAS,              /* a second image over the pixels of another one (the "pixbuf" idiom: x888 source + a888 mask on the same bits) */
     MOP_BITS_HUGE,          /* an image of 4 GiB or more whose pixels pixman allocates itself */
     MOP_BITS_YUV,           /* a source image in one of the two YUV formats (yuy2, yv12): can be read, never written */
+    MOP_R_FROM_IMAGE,       /* pixman_region{,32}_init_from_image of an a1 image in a slot */
     MOP_N
 };
 
